@@ -136,6 +136,55 @@ def ob_dom_attrs(ctx, N):
     return verdict(ctx, [('stream-closed', st.closed is True)], witness=wit, sample=lambda m: dict(wit(m), outcome=out))
 
 
+BASE_FILES = {
+    'utf8': (b'#diffx: encoding=utf-8, version=1.0\n#.preamble: indent=2, length=9, line_endings=unix\n  Hi\n  x\n'
+             b'#.meta: format=json, length=9\n{"a": 1}\n#.change:\n#..preamble: length=3\nyo\n#..meta: length=3\n{}\n'
+             b'#..file:\n#...meta: format=json, length=14\n{"path": "p"}\n#...diff: length=12, type=text\n--- a\n+++ b\n'),
+    'utf16-crlf': (b'#diffx: version=1.0\r\n#.change: encoding=utf-16\r\n#..preamble: length=8, line_endings=dos\r\n'
+                   + 'x\r\n'.encode('utf-16') + b'#..file:\r\n#...meta: length=8\r\n' + '{}\n'.encode('utf-16')
+                   + b'#...diff: encoding=utf-16-le, length=4\r\nd\x00\n\x00'),
+}
+
+
+def ob_corrupt(ctx, api, fname, W, positions=None):
+    """arbitrary byte-level corruption of a well-formed file: a fully symbolic window of W bytes replaces, or is
+    inserted at, every position of the file"""
+    from pydiffx.reader import DiffXReader
+    from pydiffx.errors import DiffXParseError, BaseDiffXError
+    base = BASE_FILES[fname]
+    mode = ctx.pick('mode', ['replace', 'insert'])
+    ps = positions if positions is not None else list(range(len(base) + (1 if mode == 'insert' else 0)))
+    p = ctx.pick('pos', ps)
+    w = ctx.choose(1, W, 'w')
+    win = sym_bytes(ctx, 'x', w)
+    tail = base[p + w:] if mode == 'replace' else base[p:]
+    data = mk_seq(tuple(base[:p]) + tuple(win.el) + tuple(tail), bytes)
+    wit = lambda m: {'api': api, 'data': model_bytes(m, data)}
+    if api == 'reader':
+        try:
+            recs = list(DiffXReader(SymStream(data)))
+        except DiffXParseError as e:
+            return verdict(ctx, _contract(ctx, e, data, wit), witness=wit,
+                           sample=lambda m: dict(wit(m), outcome='DiffXParseError line %s' % (e.linenum,)))
+        except PathTimeout:
+            return viol('nontermination', wit(ctx.model()))
+        except Exception as e:
+            return viol('raised:%s' % type(e).__name__, wit(ctx.model()))
+        return verdict(ctx, [('records', True)], witness=wit, sample=lambda m: dict(wit(m), outcome='%d records' % len(recs)))
+    from pydiffx import DiffX
+    st = SymStream(data)
+    try:
+        DiffX.from_stream(st)
+        out = 'loaded'
+    except BaseDiffXError as e:
+        out = type(e).__name__
+    except PathTimeout:
+        return viol('nontermination', wit(ctx.model()))
+    except Exception as e:
+        return viol('dom-raised:%s' % type(e).__name__, wit(ctx.model()))
+    return verdict(ctx, [('stream-closed', st.closed is True)], witness=wit, sample=lambda m: dict(wit(m), outcome=out))
+
+
 DOM_PREFIXES = [
     b'', MAIN, MAIN + b'#.meta: length=3\n', MAIN + b'#.meta: length=', MAIN + b'#.preamble: length=2\n',
     MAIN + b'#.preamble: length=2, indent=', b'#diffx: encoding=utf-8, version=1.0\n#.preamble: length=2\n',
@@ -163,6 +212,22 @@ def obligations(tier):
                   desc='DiffX.from_stream on catalogue prefixes + symbolic tail: only BaseDiffXError subclasses escape; '
                        'the stream is closed on success and on every failing path',
                   bounds={'tail_len': [0, ND], 'prefixes': len(DOM_PREFIXES)}))
+    for fname in BASE_FILES:
+        W = 1 if quick else 2
+        step = 3 if quick else 1
+        pos = list(range(0, len(BASE_FILES[fname]), step))
+        obs.append(Ob('corrupt[reader,%s]' % fname, ob_corrupt, dict(api='reader', fname=fname, W=W, positions=pos),
+                      must_reach=['DiffXReader.iter_sections'], path_timeout=8,
+                      desc='well-formed %s file (%d bytes) with a fully symbolic window of 1..%d bytes replacing / inserted '
+                           'at every %s position: reader contract' % (fname, len(BASE_FILES[fname]), W,
+                                                                      'third' if quick else ''),
+                      bounds={'window': [1, W], 'positions': len(pos), 'file_len': len(BASE_FILES[fname])}))
+    obs.append(Ob('corrupt[dom,utf8]', ob_corrupt, dict(api='dom', fname='utf8', W=1,
+                                                        positions=list(range(0, len(BASE_FILES['utf8']), 4 if quick else 1))),
+                  must_reach=['DiffXDOMReader.parse'], path_timeout=8,
+                  stubs=['json.loads on symbolic text: catalogue / assumed invalid'],
+                  desc='object-model loading of the utf8 base file with one symbolic byte replacing / inserted at positions',
+                  bounds={'window': 1}))
     obs.append(Ob('dom[attribute-named-options]', ob_dom_attrs, dict(N=1 if quick else 2),
                   must_reach=['DiffXDOMReader.parse'], path_timeout=8,
                   desc='DiffX.from_stream on files whose container headers carry an option named like any attribute '
